@@ -15,7 +15,32 @@ def _tqdm(interp, args, kwargs, node):
     return args[0]
 
 
+def _shallow_copy(interp, args, kwargs, node):
+    """copy.copy(obj): a new object of the same class whose fields hold the same values (shallow)"""
+    import z3
+    from ..values import REF_TYPE, TSObj
+    o = args[0]
+    if o.kind == "sobj":
+        cm = interp.class_models[o.cname]
+        r = interp.ctx.new_sref("copy_" + o.cname)
+        interp.ctx.assume(REF_TYPE(r) == TSObj(o.cname).tag())
+        new = VSObj(r, o.cname)
+        for fname, t in cm.fields.items():
+            for (p, srt) in t.comps():
+                m = interp.ctx.field_map(o.cname, fname, p, srt)
+                interp.ctx.sheap[("f", o.cname, fname, p)] = z3.Store(m, r, z3.Select(m, o.z))
+        return new
+    if o.kind == "ref" and o.rkind == "obj":
+        return interp.ctx.new_cell("obj", dict(interp.ctx.cell(o)), o.cls)
+    if o.kind == "ref" and o.rkind == "list":
+        return interp.ctx.new_cell("list", list(interp.ctx.cell(o)))
+    if o.kind == "slist":
+        return interp.slist_copy(o, node)
+    raise EngineError(f"copy.copy of {o}")
+
+
 HANDLERS = {
+    "copy.copy": (_shallow_copy, "copy.copy(x) is a new object of the same class with the same field values"),
     "tqdm.tqdm": (_tqdm, "tqdm(x) iterates x"),
     "os.makedirs": (_noop, "filesystem call, outside the heap model"),
 }
